@@ -21,7 +21,7 @@ from vlib import chx, enc
 from vlib.chx import pinned
 from vlib.oracles import cfg as OC
 from vlib.oracles import trees as OT
-from vlib.registry import Cond, product_pins
+from vlib.registry import Cond
 
 from pyformlang.cfg import Variable, Terminal
 from pyformlang.cfg.llone_parser import LLOneParser
